@@ -1,4 +1,5 @@
 import MetapypeModel.Model.XmlGrammar
+import MetapypeModel.Lemmas.DictLemmas
 /-
   C07 — XML export is well-formed and round-trips the tree.
 
@@ -401,44 +402,6 @@ theorem C07_general_tail (pns : Dict) (level : Nat) (closing : Str) (hc : closin
 
 /-- XML scoping: declarations on an element override the bindings in scope on its parent -/
 def inScope (parentScope decls : Dict) : Dict := decls.foldl (fun d kv => d.set kv.1 kv.2) parentScope
-
-theorem get?_set_self : ∀ (d : Dict) (k v : String), (d.set k v).get? k = some v
-  | [], k, v => by simp [Dict.set, Dict.get?]
-  | (k', v') :: d, k, v => by
-    simp only [Dict.set]
-    by_cases hb : (k' == k) = true
-    · rw [if_pos hb]; simp [Dict.get?, hb]
-    · rw [if_neg hb]
-      have hb' : (k' == k) = false := by simpa using hb
-      have ih := get?_set_self d k v
-      simp only [Dict.get?, List.find?_cons, hb'] at ih ⊢
-      exact ih
-
-theorem get?_set_ne : ∀ (d : Dict) (k v x : String), x ≠ k → (d.set k v).get? x = d.get? x
-  | [], k, v, x, h => by
-    have : (k == x) = false := by simpa using fun e => h e.symm
-    simp [Dict.set, Dict.get?, this]
-  | (k', v') :: d, k, v, x, h => by
-    simp only [Dict.set]
-    by_cases hb : (k' == k) = true
-    · rw [if_pos hb]
-      have hk : k' = k := by simpa using hb
-      have : (k' == x) = false := by simpa [hk] using fun e => h e.symm
-      simp [Dict.get?, this]
-    · rw [if_neg hb]
-      have ih := get?_set_ne d k v x h
-      simp only [Dict.get?, List.find?_cons] at ih ⊢
-      cases hx : (k' == x) with
-      | true => rfl
-      | false => exact ih
-
-theorem get?_none_of_not_key : ∀ (d : Dict) (k : String), k ∉ d.keys → Dict.get? d k = none
-  | [], k, _ => rfl
-  | kv :: d, k, h => by
-    simp only [Dict.keys, List.map_cons, List.mem_cons, not_or] at h
-    have hb : (kv.1 == k) = false := by simpa using fun e => h.1 e.symm
-    simp only [Dict.get?, List.find?_cons, hb]
-    exact get?_none_of_not_key d k h.2
 
 theorem inScope_get? : ∀ (decls base : Dict) (k : String), decls.keys.Nodup →
     Dict.get? (inScope base decls) k = match Dict.get? decls k with | some v => some v | none => Dict.get? base k
